@@ -16,7 +16,10 @@ used = set()
 for i in d["findings"]:
     if i["status"] != "fixed":
         continue
-    hs = [h for h, s in fixes if s.startswith(i["commit"][:50])]
+    hs = [h for h, s in fixes if s == i["commit"]] or \
+        [h for h, s in fixes if s.startswith(i["commit"]) or
+         i["commit"].startswith(s)] or \
+        [h for h, s in fixes if s.startswith(i["commit"][:50])]
     if not hs:
         print("NO COMMIT for entry", i["property"], i["commit"][:80])
         bad += 1
